@@ -77,3 +77,13 @@ Example C17_examples :
   is_contra (7#8) (B (1#4) (1#16)) = true.
 Proof. vm_compute. repeat split; reflexivity. Qed.
 Print Assumptions C17_examples.
+
+(* ---------- first-order tables: every stored bound stays in [0,1] through any inference ---------- *)
+From LNN Require Import Fol.
+From LNN.proofs Require Import FolProofs StoreProofs.
+Theorem C17_fol_range : forall k roots s ops, FRange s -> FRange (fexec_ops k roots s ops).
+Proof. intros k roots s ops HR. apply (fexec_ops_ok k roots ops s HR). Qed.
+Print Assumptions C17_fol_range.
+Theorem C17_fol_reads_in_range : forall k roots s ops i g, FRange s -> wf_bnd (fget (fexec_ops k roots s ops) i g).
+Proof. intros k roots s ops i g HR. apply FRange_fget. apply (fexec_ops_ok k roots ops s HR). Qed.
+Print Assumptions C17_fol_reads_in_range.
